@@ -94,11 +94,42 @@ def run(tier):
         else:
             stats["deannotated:roundtrip-ok"] += 1
     ck.log("rebuild round trips: %d inputs %s" % (len(cases), dict(stats)))
+    # the tie of Model/Escape.v: what the real rebuilder prints for a string constant and an import path,
+    # for random byte strings (every byte value, every length up to 40), equals the model's text byte for byte
+    def spell(b):
+        if b in (34, 92): return "\\" + chr(b)
+        if 32 <= b < 127: return chr(b)
+        return {10: "\\n", 13: "\\r", 9: "\\t", 0: "\\0"}.get(b, "\\x%02X" % b)
+    erng = random.Random(ck.seed + 2020)
+    ecases, eitems, want = [], [], {}
+    for i in range(300 if tier == "quick" else 20000):
+        ln = i % 41 if i < 200 else erng.randint(0, 300)
+        bs = bytes(erng.choice([erng.randrange(256), erng.choice(b"'\"\\\n\t\r\x00 az09")]) for _ in range(ln))
+        path = bytes(erng.choice(b"abc/._-'\"\\ \xc3\xa9\x01") for _ in range(erng.randint(1, 12)))
+        try: path.decode("utf-8")
+        except UnicodeDecodeError: path = b"p/q.pn"          # (import paths must be UTF-8: parser.rs String::from_utf8)
+        cid = "e%d" % i
+        ecases.append((cid, 'const S: []char8 = "%s";\nimport "%s";\n' % ("".join(spell(b) for b in bs), "".join(spell(b) for b in path))))
+        eitems += [("escape", cid + ".c", "(const %s)" % (bs.hex() or "-")), ("escape", cid + ".i", "(import %s)" % (path.hex() or "-"))]
+    eimpl = C.run_harness("syntax-tree", ecases, ck.work + "/escape", timeout=1800)
+    emodel = C.run_model(eitems, ck.work + "/escape")
+    ebad = 0
+    for cid, src in ecases:
+        f = eimpl.get(cid, ["missing"])
+        if len(f) < 3 or not f[2].startswith("ok "):
+            ebad += 1; ck.violation("tie-broken:escape-rebuild", "a module of one string constant and one import is not rebuilt: %s" % (f[:3],), src); continue
+        real = C.unesc(f[2][3:])
+        try: model = b"\n" + bytes.fromhex(emodel.get(cid + ".c", "")) + b"\n" + bytes.fromhex(emodel.get(cid + ".i", ""))
+        except ValueError: model = b"MODEL-ERROR " + repr((emodel.get(cid + ".c"), emodel.get(cid + ".i"))).encode()
+        if real != model:
+            ebad += 1; ck.violation("tie-broken:escape-text", "the rebuilder's text for a string constant / import differs from Model/Escape.v (rebuild_const_string / rebuild_import)",
+                                    "source:\n%s\nreal : %r\nmodel: %r" % (src, real, model))
+    ck.log("escape tie: %d modules, %d differences" % (len(ecases), ebad))
     if not proof_ok:
         ck.violation("tie-broken:proof", "Props/C20.v no longer checks", getattr(ck, "proof_output", "")[-2000:])
     ck.coverage.update(
         evaluations=len(cases), distinct_nontrivial=len(distinct),
-        rule="grammar derivations covering every declaration, statement, type and expression form, generated programs and the corpus; for every module that parses without error and has no builtin call: real rebuild -> real lex+parse -> same tree up to literal spelling/suffix, and a second rebuild is byte-identical; the reference printer/parser round trip is re-checked by computation on the same trees; distinct = distinct trees that round-trip",
+        rule="(string/import printing: real rebuilder text = Model/Escape.v on random byte strings) grammar derivations covering every declaration, statement, type and expression form, generated programs and the corpus; for every module that parses without error and has no builtin call: real rebuild -> real lex+parse -> same tree up to literal spelling/suffix, and a second rebuild is byte-identical; the reference printer/parser round trip is re-checked by computation on the same trees; distinct = distinct trees that round-trip",
         stats=dict(stats),
         samples=[dict(source=cases[0][1][:300])])
     return ck.finish()
